@@ -182,6 +182,7 @@ def gen_case(rng, n=None, mode=None, maxshape=None, p_ref=0.0, est=None, p_U=0.2
             if us[i] and us[i - 1]:
                 us[i] = False
     case = {"n": n, "dz": dz, "da": da, "z": z, "a": a, "U": us, "shape": shape, "est": est, "alone": alone,
+            "zU": [rng.random() < 0.5 for _ in range(n)] if rng.random() < 0.6 else [False] * n,
             "body": [], "zmode": mode}
     case["body"] = gen_body(rng, case, p_ref=p_ref)
     return case
@@ -231,7 +232,7 @@ def describe(case):
             "z_empty_subfiber": U.has_empty_sub(case["z"], case["dz"]),
             "writes_default": any(a[0] == "assign" and a[1] == case["dz"] for _, a in case["body"]),
             "refbelow": any(a[0] == "refbelow" for _, a in case["body"]),
-            "a_est_shape": bool(case.get("est")), "a_standalone": case.get("alone", 0), "a_default_none": case["da"] == NONE_D,
+            "a_est_shape": bool(case.get("est")), "z_any_U": any(case.get("zU", [])), "a_standalone": case.get("alone", 0), "a_default_none": case["da"] == NONE_D,
             "offered": min(len(case["body"]), 9)}
 
 
@@ -277,10 +278,10 @@ def act_coq(a):
 
 def case_to_coq(c):
     body = L.lst("(%s, %s)" % (L.zlist(p), act_coq(a)) for p, a in c["body"])
-    return "(Build_c05_case %s %s %s %s %s %s %s %s %s %s)" % (
+    return "(Build_c05_case %s %s %s %s %s %s %s %s %s %s %s)" % (
         L.nat(c["n"]), L.z(c["dz"]), L.z(c["da"]), L.tree(c["z"]), L.tree(c["a"]),
         L.lst(L.b(u) for u in c["U"]), L.zlist(c["shape"]), L.b(c.get("est", False)),
-        L.b(bool(c.get("alone", 0))), body)
+        L.b(bool(c.get("alone", 0))), L.lst(L.b(u) for u in c.get("zU", [False] * c["n"])), body)
 
 
 # ------------------------------------------------------------------ implementation side
@@ -339,7 +340,7 @@ def run_impl_alone(case):
     res = run_nest(case, Z, a)
     if len(res) == 2:
         return res
-    return [a0] + res + [[U.snap(a), [], True]]
+    return [a0] + res[:3] + [[U.snap(a), [], True], res[3], z_attrs(Z)]
 
 
 def run_impl_tensor(case):
@@ -358,12 +359,31 @@ def run_impl_tensor(case):
     res = run_nest(case, Z, A.getRoot())
     if len(res) == 2:
         return res
-    return [a0] + res + [H.state_obs(A, n)]
+    return [a0] + res[:3] + [H.state_obs(A, n), res[3], z_attrs(Z)]
+
+
+def z_attrs(Z):
+    """attributes of z's ranks: [id as index, shape, default ([] = a fiber), format U?]"""
+    from fibertree import Fiber, Payload
+    out = []
+    for r in Z.ranks:
+        at = r.getAttrs()
+        d = Payload.get(at.getDefault())
+        d = [] if (isinstance(d, type) and issubclass(d, Fiber)) else U.undress(d)
+        rid = at.getId()
+        fmt = at.getFormat()
+        out.append([U.RANK_NAMES.index(rid) if rid in U.RANK_NAMES else -1, U.undress(Payload.get(at.getShape())), d,
+                    fmt == "U" if fmt in ("U", "C") else 2])
+    return out
 
 
 def run_nest(case, Z, a_root):
-    """the loop nest; returns [z before, events, z after] or an error observation"""
+    """the loop nest; returns [z before, events, z after, z's rank attributes before] or an error observation"""
     n = case["n"]
+    for rid, u in zip(Z.getRankIds(), case.get("zU", [])):
+        if u:
+            Z.setFormat(rid, "U")          # the destination's format has no bearing on populate
+    za0 = z_attrs(Z)
     body = {tuple(p): a for p, a in case["body"]}
     z0 = H.state_obs(Z, n)
     events = []
@@ -386,7 +406,7 @@ def run_nest(case, Z, a_root):
         return [-1, 1]
     except IndexError:
         return [-1, 2]
-    return [z0, events, H.state_obs(Z, n)]
+    return [z0, events, H.state_obs(Z, n), za0]
 
 
 def repro_py(case):
